@@ -150,8 +150,26 @@ def scheme_case(spec, res):
             dpts0 = MC.table(dem2)[0] if dem2 is not None and hasattr(dem2, "constellation") else None
             seq = [list(l) for l in lab]
             calls = [[x for l in seq for x in l]] + [(l + l if MC.KIND[scheme] == "offset" else l) for l in (seq if M <= 64 else seq[:8] + seq[-8:])]
-            for ci, bits_ in enumerate(calls):
-                y2 = mod2(torch.tensor([bits_], dtype=torch.float32))
+            # inputs as symbol indices where the modulator takes them (0-d and one-element), besides bit rows; what a call returns is the caller's:
+            # it is scaled and shifted in place before the table is read again
+            calls = [torch.tensor([c_], dtype=torch.float32) for c_ in calls]
+            for i_ in (0, 1, M - 1):
+                calls += [torch.tensor(i_), torch.tensor([i_])]
+            for ci, inp in enumerate(calls):
+                try:
+                    y2 = mod2(inp)
+                except Exception:  # noqa: BLE001
+                    if inp.dtype == torch.float32:
+                        raise
+                    continue           # index inputs are optional
+                try:
+                    y2.mul_(1.5).add_(0.25)
+                    y2.mul_(1 / 1.5).sub_(0.25 / 1.5)
+                    if inp.dtype != torch.float32:
+                        y2.mul_(0.5)
+                except Exception:  # noqa: BLE001
+                    pass
+                bits_ = inp.reshape(-1).tolist() if inp.dtype == torch.float32 else [0] * b
                 pts_after, lab_after = MC.table(mod2)
                 if dpts0 is not None:
                     try:
